@@ -179,7 +179,13 @@ def run(chk, repo):
                 if st.names[0] in ("pole", "z"):
                     C = opaque("cos", RF.sym("cutoff"))
                     E = 2 * (n0 * n0 + n1 * n1 + 2 * n0 * n1 * C) - (d0 * d0 + d1 * d1 + 2 * d0 * d1 * C)
-                    skip = any("denR" in unparse(t) and p for t, p in trail)     # cos(cutoff) == 0 replaced by 1
+                    def _falsy_den(t_, p_):
+                        # the path on which cos(cutoff) is zero (and is replaced by 1): `not denR` taken / `denR` not taken
+                        while isinstance(t_, ast.UnaryOp) and isinstance(t_.op, ast.Not):
+                            t_, p_ = t_.operand, not p_
+                        return unparse(t_) in ("denR", "denR != 0", "cos(cutoff)") and not p_ or \
+                            (unparse(t_) in ("denR == 0",) and p_)
+                    skip = any(_falsy_den(t, p) for t, p in trail)
                     if not skip:
                         red = reduce_relations(E)
                         chk.decide(red.is_zero(), "C13.halfpower", W, "[%s] |H(e^jc)|^2 = 1/2 at the cut-off" % tl,
@@ -290,11 +296,34 @@ def run(chk, repo):
                        why="must be 1 - 2 R cos(theta) z^-1 + R^2 z^-2 with the documented cos(theta)", node=rst)
             chk.decide(den is not None and (val * den).simplified().key() == (val * den).key() and True, "C13.resonator", W,
                        "result is gain * numerator / denominator", why="", node=rst) if False else None
+            # unit gain at the resonant frequency w_r: |N(e^jw_r)|^2 == |D(e^jw_r)|^2, where the pole angle t and w_r are
+            # tied by cos t = cos w_r * 2R/(1+R^2) (pole-only) or cos t = cos w_r * (1+R^2)/(2R) (zeros at +-1)
+            g_ = env.get("gain")
+            if okd and g_ is not None:
+                fam_z = st.names[0] in ("z_exp", "freq_z_exp")
+                cr = c1 * 2 * wantR / (1 + wantR ** 2) if fam_z else c1 * (1 + wantR ** 2) / (2 * wantR)
+                a_, b_ = 2 * wantR * c1, wantR ** 2
+                D2 = 1 + a_ * a_ + b_ * b_ - 2 * a_ * (1 + b_) * cr + 2 * b_ * (2 * cr * cr - 1)
+                N2 = g_ * g_ * (4 * (1 - cr * cr) if fam_z else 1)
+                try:
+                    res_ = reduce_relations(N2 - D2)
+                    chk.decide(res_.is_zero(), "C13.resonator", W, "|H(e^jw)|^2 = 1 at the resonant frequency (gain %s)" % g_.key()[:60],
+                               why="unit-gain identity fails: residue %s" % res_.key()[:140], node=rst)
+                except (Inconclusive, ZeroDivisionError) as ex:
+                    chk.defer("%s: unit-gain identity not interpretable (%s)" % (W, ex))
             if st.names[0] in ("z_exp", "freq_z_exp"):
                 num = val * den if den is not None else val
                 chk.decide(num.subst({"x": RF.const(1)}).is_zero() and num.subst({"x": RF.const(-1)}).is_zero(),
                            "C13.resonator", W, "numerator vanishes at z = 1 and z = -1",
                            why="z-type resonators have zeros at DC and Nyquist", node=rst)
+                g0 = env.get("gain")
+                try:
+                    causal = g0 is not None and num == g0 * (1 - RF.sym("x") ** 2)
+                except Inconclusive:
+                    causal = False
+                chk.decide(causal, "C13.resonator", W, "numerator is gain * (1 - z^-2)",
+                           why="the two zeros must be realised with delays (negative powers of z): anything else is not a "
+                               "causal filter", node=rst)
                 g = env.get("gain")
                 chk.decide(g is not None and g == (1 - wantR ** 2) / 2, "C13.resonator", W, "gain = (1 - R^2)/2",
                            why="documented normalisation", node=rst)
